@@ -250,7 +250,7 @@ def check(ctx):
         miss = set(DOC_RECOGNISERS) - {v[0] for v in recog.values()}
         for m in sorted(miss):
             r2.bad(V(r2.id, "TypeResolver", "missing-recogniser:%s" % m, "no recogniser for the documented constructor prefix %r" % m))
-    r2.require_floor(16, "recogniser facts")
+    r2.require_floor(12, "recogniser facts")
     rules.append(r2)
 
     # ---------------------------------------------------------------- D3 / D4
